@@ -1,7 +1,9 @@
 import PeliteModel.Model.Typed
 /-!
-Model of the export directory: `src/pe64/exports.rs` (`Exports`, `By`, `GetProcAddress`) and the
-wrappers of `src/wrap/exports.rs`, over the typed-read model (`View.derva`, `dervaSlice`, `dervaCStr`).
+Model of the export directory: `src/pe64/exports.rs` (`Exports`, `By`, `GetProcAddress`; compiled a
+second time as `pe32::exports`), over the typed-read model (`View.derva`, `dervaSlice`, `dervaCStr`).
+The format agnostic API of `src/wrap/exports.rs` — with its three hand-written iterators — has its
+own model, `Model/WrapExports.lean`, proved equal to this one in `Thm/C19Wrap.lean`.
 
 `IMAGE_EXPORT_DIRECTORY` (src/image.rs, 40 bytes, align 4):
   0 Characteristics  4 TimeDateStamp  8 Version  12 Name  16 Base  20 NumberOfFunctions
@@ -230,7 +232,7 @@ def By.iter (y : By) : List (Out Export) :=
 def By.iterNames (y : By) : List (Out Ref × Out Export) :=
   (List.range y.names.cnt).map fun h => (y.nameOfHint h, y.hint h)
 /-- `(0..min(names.len(), name_indices.len())).map(|hint| (name_of_hint(hint), name_indices[hint]))`:
-the indexing is a checked one; the same code in src: wrap/exports.rs:iter_name_indices -/
+the indexing is a checked one (the hand-written twin of src: wrap/exports.rs is `WBy.iterNameIndices`) -/
 def By.iterNameIndices (y : By) : List (Out (Out Ref × Nat)) :=
   (List.range (min y.names.cnt y.idx.cnt)).map fun h =>
     if h < y.idx.cnt then .ok (y.nameOfHint h, y.idxAt h)
@@ -243,7 +245,7 @@ inductive Query
   | import (i : ImportQ)
   deriving Repr
 
--- src: exports.rs:GetProcAddress::get_export (three impls), wrap/exports.rs:get_export_by_*
+-- src: exports.rs:GetProcAddress::get_export (three impls; wrap/exports.rs:get_export_by_* = `wGetExport`)
 def getExport (v : View) (q : Query) : Out Export :=
   (tryFrom v).bind fun e => e.by.bind fun y =>
     match q with
